@@ -401,6 +401,25 @@ def gen_scenario(scen: Choices, cls, cfg):
             op_["index_name"] = scen.weighted([(4, None), (1, "row"), (1, "obs")])
         steps.append(step)
         scen.end(b_)
+        if op_ is not None and step["kind"] == "op" and op_.get("via") == "api" and len(steps) < max_steps and scen.chance(1, 2):
+            # the client's facade object (for rolling: the `gb.rolling(w)` object) is used again at
+            # once with the call's options back at their defaults: nothing of the earlier call's
+            # mask / output layout may stick to it
+            import copy as _copy
+
+            b_ = scen.begin()
+            again = _copy.deepcopy(step)
+            ao = again["op"]
+            if ao["op"].startswith("rolling_"):
+                ao["op"] = "rolling_" + ["sum", "mean", "min", "max"][scen.draw(4)]
+            if "mask" in ao and scen.chance(2, 3):
+                ao["mask"] = {"kind": "none"}
+                ao.pop("mask_ref", None)
+                ao.pop("mask_version", None)
+            if ao.get("ibg"):
+                ao["ibg"] = False
+            steps.append(again)
+            scen.end(b_)
         if step["kind"] == "class_form" and len(steps) < max_steps and scen.chance(1, 2):
             # class-form calls come in bursts on one key object
             b_ = scen.begin()
